@@ -577,8 +577,18 @@ func (r *SqlManager) Rollback(ctx context.Context) {
 			return err
 		}
 		// group on transaction_id
+		// The document versions of one transaction are not written at the same instant, so their timestamps can be on
+		// either side of the threshold. A transaction is always handled as a whole: load all of its changes.
 		for _, change := range changes {
-			groupedChanges[change.TransactionID] = append(groupedChanges[change.TransactionID], change)
+			if _, done := groupedChanges[change.TransactionID]; done {
+				continue
+			}
+			transactionChanges := make([]orm.DIDChangeLog, 0)
+			err = tx.Preload("DIDDocumentVersion").Preload("DIDDocumentVersion.DID").Where("transaction_id = ?", change.TransactionID).Find(&transactionChanges).Error
+			if err != nil {
+				return err
+			}
+			groupedChanges[change.TransactionID] = transactionChanges
 		}
 		// check per transaction_id if all are committed
 		for transactionID, versionChanges := range groupedChanges {
